@@ -62,7 +62,7 @@ ODD = ('dup_ignore', 'ignore_and_data', 'unknown_hash', 'unsupported_hash', 'nul
        'manifest_entry_is_dir', 'dup_manifest_entry', 'dup_timestamp', 'ignore_top_manifest',
        'entry_for_top_manifest', 'empty_top', 'data_and_manifest', 'aux_missing',
        'ignore_then_listed_below', 'manifest_missing_file', 'compressed_sub_invalid',
-       'hidden_listed_dir')
+       'hidden_listed_dir', 'unregistered_top_gz', 'manifest_nul_path')
 
 
 def s_odd(v):
@@ -74,7 +74,11 @@ def s_odd(v):
     md5 = digest_for('MD5', 'A')
     fs.add_file('a', size=2, digest='A')
     fs.add_file('sub/c', size=3, digest='C')
-    top = [mk('DATA', 'a', 2, MD5=md5)]
+    import datetime as _dt
+    from gemato.manifest import ManifestEntryTIMESTAMP as _TS
+    # (a TIMESTAMP as the first line: hand-written Manifests may have it anywhere)
+    top = [_TS(_dt.datetime(2019, 1, 1)), mk('DATA', 'a', 2, MD5=md5),
+           mk('DATA', 'vanished', 1, MD5=md5)]
     sub = [mk('DATA', 'c', 3, MD5=digest_for('MD5', 'C'))]
     registered = True
     if odd == 'dup_ignore':
@@ -83,9 +87,9 @@ def s_odd(v):
     elif odd == 'ignore_and_data':
         top += [mk('IGNORE', 'a')]
     elif odd == 'unknown_hash':
-        top[0] = mk('DATA', 'a', 2, FOO='f00')
+        top[1] = mk('DATA', 'a', 2, FOO='f00')
     elif odd == 'unsupported_hash':
-        top[0] = mk('DATA', 'a', 2, WHIRLPOOL='abc')
+        top[1] = mk('DATA', 'a', 2, WHIRLPOOL='abc')
     elif odd == 'nul_path':
         top += [mk('DATA', 'n\0ul', 1, MD5=md5)]
     elif odd == 'entry_is_dir':
@@ -123,6 +127,11 @@ def s_odd(v):
     elif odd == 'compressed_sub_invalid':
         fs.add_manifest('z/Manifest.gz', [], size=2, digest='Z', invalid=True)
         top += [mk('MANIFEST', 'z/Manifest.gz', 2, MD5=digest_for('MD5', 'Z'))]
+    elif odd == 'unregistered_top_gz':
+        fs.add_manifest('Manifest.gz', [mk('DATA', 'long-gone', 1, MD5=md5)], size=3,
+                        digest='G')
+    elif odd == 'manifest_nul_path':
+        top += [mk('MANIFEST', 'n\0ul/Manifest', 1, MD5=md5)]
     elif odd == 'hidden_listed_dir':
         fs.add_file('.hid/f', size=1, digest='f')
         top += [mk('DATA', '.hid/f', 1, MD5=digest_for('MD5', 'f'))]
@@ -199,9 +208,14 @@ def conditions(tier):
     for odd in range(len(ODD)):
         for cmd in range(4):
             fx = {'odd': odd, 'cmd': cmd}
+            regions = None
+            if ODD[odd] == 'unregistered_top_gz' and cmd in (1, 3):
+                # known finding F12: second, unreferenced Manifest.gz in the top directory
+                regions = {'F12-unreferenced-second-top-level-manifest':
+                           lambda keep_going, profile: profile == 0}
             cs.append(make_cond(
                 f'cli_{ODD[odd]}_c{cmd}', s_odd, run_cli, judge_cli, fx, timeout=300,
-                group='M-cli', real=False, twin=False,
+                group='M-cli', real=False, twin=False, known_regions=regions,
                 descr=f'gemato.cli.main for {("verify", "update", "update sub", "create")[cmd]} '
                       f'on a model tree with the odd feature "{ODD[odd]}": exit status 0/1 or '
                       'a genuine OSError; no internal error escapes',
@@ -209,6 +223,9 @@ def conditions(tier):
                        'keep-going on/off'))
     return cs
 
+
+# validate() compares the real implementation with the property itself
+VALIDATION_CHECKS_PROPERTY = True
 
 ASSUMPTIONS = ['the model\'s os.open/os.stat enforce the kernel\'s NUL rule as the real ones '
                'do (ValueError: embedded null byte)',
